@@ -2,7 +2,7 @@
 # quick tier under several seeds: any VIOLATION on the unchanged tree is an alarm to investigate
 export NXV_DIR=$PWD
 ./setup.sh > /dev/null 2>&1 || { echo "setup failed"; exit 2; }
-for s in 1 2 3 4 5 6; do
+for s in ${SWEEP_SEEDS:-1 2 3 4 5 6}; do
   for p in C01 C02 C03 C04 C05 C06 C07 C08 C09 C10 C11 C12 C13 C14 C15 C16 C17 C18 C19; do
     out=$(VERIF_SEED=$s NXV_SKIP_E2=1 ./check $p quick 2>&1); rc=$?
     echo "seed=$s $p rc=$rc $(echo "$out" | grep -E "^C[0-9]+ quick:" | cut -c1-120)"
